@@ -96,12 +96,15 @@ def check(ctx):
             continue
         ctx.ok('C09.1', ctx.site(b, inner[0][0]), 'sign(key, digest(subject(self)))', sample=fmt(inner[0][1]))
         rt = strip_sites(tb.return_term())
-        top = m_call(rt, name='add_assertion', self_suffix='Envelope')
-        if top is None or top[0] != P1 or const_name(top[1]) != 'SIGNED':
+        # every exit returns add_assertion(self, 'signed', <signature object>) (one exit, or an early return for the plain form)
+        tops = [m_call(a, name='add_assertion', self_suffix='Envelope') for a in phi_alts(rt)]
+        if not tops or any(top is None or top[0] != P1 or const_name(top[1]) != 'SIGNED' for top in tops):
             ctx.fail('C09.6', ctx.site(b), 'signing does not return add_assertion(self, \'signed\', signature object): %s' % fmt(rt), key='C09.6|writer')
             continue
         ctx.ok('C09.6', ctx.site(b), 'writer: add_assertion(self, \'signed\', signature object)')
-        objs = phi_alts(top[2])
+        objs = []
+        for top in tops:
+            objs.extend(phi_alts(top[2]))
         for bi, msg in outer:
             w = m_digest(strip_sites(msg))
             ok_ = False
